@@ -20,6 +20,7 @@ mod c11;
 mod c12;
 mod c14;
 mod c15;
+mod c16;
 mod c18;
 mod c19;
 mod c20;
@@ -52,6 +53,7 @@ fn main() {
         "C15" => c15::run_c15(&mut out, &mut rng, tier),
         "C20" => c20::run_c20(&mut out, &mut rng, tier),
         "C19" => c19::run_c19(&mut out, &mut rng, tier),
+        "C16" => c16::run_c16(&mut out, &mut rng, tier),
         "C18" => c18::run_c18(&mut out, &mut rng, tier),
         "C13" => c04::run_c13(&mut out, &mut rng, tier),
         "C05" => c05::run_c05(&mut out, &mut rng, tier),
